@@ -139,7 +139,7 @@ fn diff(a: &Obs, b: &Obs) -> Option<&'static str> {
 // transformations on token lists
 // ---------------------------------------------------------------------------
 
-pub const TRANSFORMS: [&str; 14] = [
+pub const TRANSFORMS: [&str; 17] = [
     "lower-case words",
     "upper-case words",
     "alternating-case words",
@@ -154,6 +154,9 @@ pub const TRANSFORMS: [&str; 14] = [
     "blank around separators doubled",
     "case alternating per occurrence of a word",
     "blank before and after statement colons",
+    "long trailing comment (a URL with a word of 60 letters, quotes, keywords)",
+    "line indented by 256 blanks",
+    "blank runs of 300 blanks",
 ];
 
 fn in_data_flags(toks: &[Tok]) -> Vec<bool> {
@@ -231,7 +234,9 @@ fn sites(toks: &[Tok], t: usize) -> Vec<usize> {
         0..=2 => (0..toks.len()).filter(|i| toks[*i].kind == TokKind::Word && !data[*i]).collect(),
         3 | 4 => (0..toks.len()).filter(|i| toks[*i].kind == TokKind::Blank && !data[*i]).collect(),
         5 | 7 | 8 => (0..toks.len()).filter(|i| toks[*i].kind == TokKind::Eol).collect(),
-        6 => {
+        16 => (0..toks.len()).filter(|i| toks[*i].kind == TokKind::Blank && !data[*i]).collect(),
+        15 => lines_of(toks).into_iter().filter(|(s, e)| toks[*s..*e].iter().any(|t| t.kind != TokKind::Blank)).map(|(s, _)| s).collect(),
+        6 | 14 => {
             // Eol tokens of non-empty lines that do not end in a comment and hold no DATA statement
             let mut out = vec![];
             for (s, e) in lines_of(toks) {
@@ -315,6 +320,15 @@ fn apply(toks: &[Tok], t: usize, chosen: &[usize]) -> String {
                 out.push(tok(TokKind::Comment, " ' c"));
                 out.push(x.clone());
             }
+            14 => {
+                out.push(tok(TokKind::Comment, " ' see https://example.org/abcdefghijklmnopqrstuvwxyzabcdefghijklmnopqrstuvwxyzabcdefgh \"quoted\" NEXT: END IF 12345678901234567890123456789012345678901234567890"));
+                out.push(x.clone());
+            }
+            15 => {
+                out.push(tok(TokKind::Blank, &" ".repeat(256)));
+                out.push(x.clone());
+            }
+            16 => out.push(tok(x.kind, &" ".repeat(300))),
             7 => out.push(tok(x.kind, "\r\n")),
             8 => out.push(tok(x.kind, "\r")),
             9 => out.push(tok(TokKind::Symbol, " : ")),
@@ -475,7 +489,7 @@ pub fn drive(tier: &str) -> i32 {
     }
     groups.push(super::run_text_group(&mut run, &pool, "names with every letter of the alphabet", &alpha, 4, &extra));
     let mut ev = Evidence::new("exploration");
-    ev.set("rule", "for every text of the groups: 14 layout transformations (words lower / upper / alternating case outside strings, comments and DATA; blank runs tripled / turned into a tab; a blank line after every line; a trailing comment on every line without DATA or comment; line ends CR LF / CR; newline -> colon between two simple statements; colon -> newline between statements of a line without IF / CASE / DATA; blanks around separators doubled where a blank is adjacent; word case alternating from one occurrence to the next; a blank before and after every statement colon), each applied at all eligible sites, at the even sites, at the odd sites and (texts with few sites) at every single site, plus all of them at once. Observables compared with the original: the parse tree's Debug rendering with positions erased and letters outside string literals upper-cased, the verdict class of parser / checker / run (error kind, run-time code), stdout and LPT1.");
+    ev.set("rule", "for every text of the groups: 17 layout transformations (words lower / upper / alternating case outside strings, comments and DATA; blank runs tripled / turned into a tab; a blank line after every line; a trailing comment on every line without DATA or comment; line ends CR LF / CR; newline -> colon between two simple statements; colon -> newline between statements of a line without IF / CASE / DATA; blanks around separators doubled where a blank is adjacent; word case alternating from one occurrence to the next; a blank before and after every statement colon; a long trailing comment holding a URL with a word of 60 letters, quotes and keywords; lines indented by 256 blanks; blank runs of 300 blanks — so that statements start beyond column 255), each applied at all eligible sites, at the even sites, at the odd sites and (texts with few sites) at every single site, plus all of them at once. Observables compared with the original: the parse tree's Debug rendering with positions erased and letters outside string literals upper-cased, the verdict class of parser / checker / run (error kind, run-time code), stdout and LPT1.");
     ev.set("exhaustive", !run.capped);
     ev.set("groups", json!(groups));
     ev.set("distinct_nontrivial", run.nontrivial);
